@@ -297,13 +297,14 @@ Proof.
                 end) as [o3 g3] eqn:EF.
       assert (NF3 : o3 <> OFuel) by (destruct o3; inversion H; subst; congruence).
       pose proof (FUN _ _ eq_refl NF3) as G3.
-      set (g4 := upd_run (pop_defer (defer_of (rn g)) (ef_defer (rn g))) g3) in *.
+      set (g4 := upd_run _ g3) in *.
       destruct G3 as [(C3 & D3 & DO3 & S3 & P3) F3].
       assert (C4 : calm (rn g4)) by (unfold g4, pop_defer; simpl; exact C3).
       assert (NI4 : flt g4 <> FInterrupt) by (unfold g4; simpl; congruence).
       assert (G04 : G0 g g4).
       { unfold G0, R0, g4, pop_defer; simpl. repeat split; try apply C3; congruence. }
-      assert (PF4 : panic_fun (rn g4) = panic_fun (rn g3)) by reflexivity.
+      (* deferred restorePanic: Run.PanicFun is again what it was when rundefer was entered *)
+      assert (PF4 : panic_fun (rn g4) = panic_fun (rn g)) by reflexivity.
       (* every continuation is go fuel (TDefers fs ds' _ _ _) g4 *)
       assert (REST : forall pk' pk2' gp', go fuel P true (TDefers fs ds' pk' pk2' gp') g4 = (o, g') ->
                 task_rel (TDefers fs (d :: ds') pk pk2 gp) g g' /\ task_post (TDefers fs (d :: ds') pk pk2 gp) g g').
@@ -311,10 +312,7 @@ Proof.
         split.
         - destruct G04 as [(a1 & a2 & a3 & a4) a5]. destruct G5 as [(b1 & b2 & b3 & b4) b5].
           repeat split; try apply b1; try congruence; auto.
-        - simpl. repeat split; auto. rewrite PF4 in Q5. rewrite PF2 in P3.
-          unfold Q in *. unfold PF in P3. destruct Q5 as [Q5|[Q5 Q6]]; [left; exact Q5|].
-          destruct P3 as [P3|P3]; [left; congruence|].
-          destruct pk1; [exfalso; congruence|]. right. split; congruence. }
+        - simpl. repeat split; auto; rewrite PF4 in Q5; exact Q5. }
       destruct o3; [| |congruence].
       * destruct pk1; [destruct (panic_fun (rn g3))|]; eapply REST; exact H.
       * eapply REST; exact H.
